@@ -1978,6 +1978,124 @@ def translate_tree(repo):
     return head + "\n".join(out) + "\nend Ixai.Gen\n", [TREE_FILE], sha
 
 
+# ----------------------------------------------------------------------------------------------------------------
+# IntervalSage.explain_one (ixai/explainer/sage/interval.py): `do`-block over `M K` with the explainer's own state as an explicit record
+# `IntervalState K V Y` (Model/Explainer.lean: storage = the GENERATED IntervalStorage kernel, seen, values):
+#   self._storage.update(x=x_i, y=y_i) -> st := {st with storage := st.storage.update x_i y_i}
+#   self.seen_samples -> st.seen ; self.interval_length -> interval_length ; self.importance_values -> st.values
+#   x_data, y_data = self._storage.get_data() -> st.storage.storage_x / storage_y
+#   super().explain_many(x_data=.., y_data=.., n_inner_samples=.., verbose=..) -> the GENERATED BatchSage.explain_many; its result becomes st.values
+# ----------------------------------------------------------------------------------------------------------------
+INTERVAL_FILE = "ixai/explainer/sage/interval.py"
+INTERVAL_PARAMS = {"x_i": "Inst", "y_i": "Y", "n_inner_samples": ("Opt", "Nat"), "update_storage": "Bool", "force_explain": "Bool", "verbose": "Bool"}
+
+
+class IntervalFn(BatchFn):
+    supports_helpers = False
+
+    def self_attr(self, e):
+        if e.attr == "seen_samples":
+            return "st.seen", "Nat", False
+        if e.attr == "interval_length":
+            return "interval_length", "Nat", False
+        if e.attr == "importance_values":
+            return "st.values", "DictK", False
+        self.err(e, "unknown attribute of the explainer")
+
+    def expr(self, e, allow_eff=True):
+        if isinstance(e, ast.BinOp) and isinstance(e.op, ast.Mod):
+            a, at, _ = self.expr(e.left, allow_eff)
+            b, bt, _ = self.expr(e.right, allow_eff)
+            if norm(at) in ("Nat", "IntLit") and norm(bt) in ("Nat", "IntLit"):
+                return f"({a} % {b})", "Nat", False
+        return super().expr(e, allow_eff)
+
+    def call(self, e, allow_eff):
+        name = ast.unparse(e.func)
+        if name == "self._storage.get_data" and not e.args and not e.keywords:
+            return "(st.storage.storage_x, st.storage.storage_y)", ("Tup", ["ListInst", "ListY"]), False
+        if name in ("super().explain_many", "BatchSage.explain_many", "super(IntervalSage, self).explain_many"):
+            if not allow_eff:
+                self.err(e, "callback inside a pure context")
+            got = self.kwargs(e, ["x_data", "y_data", "n_inner_samples", "verbose"], e)
+            if set(got) != {"x_data", "y_data", "n_inner_samples", "verbose"}:
+                self.err(e, "explain_many without explicit x_data / y_data / n_inner_samples / verbose")
+            xs, xt, _ = self.expr(got["x_data"])
+            ys, yt, _ = self.expr(got["y_data"])
+            n, nt, _ = self.expr(got["n_inner_samples"])
+            vb, vt, _ = self.expr(got["verbose"])
+            if norm(xt) != "ListInst" or norm(yt) != "ListY" or norm(vt) != "Bool" or not (isinstance(norm(nt), tuple) and norm(nt)[0] == "Opt"):
+                self.err(e, "explain_many on something other than (stored instances, stored targets, optional count, flag)")
+            return f"(← BatchSage.explain_many O feature_names cfg_n_inner_samples permutation imputeMx {xs} {ys} {n} {vb})", "DictK", True
+        return super().call(e, allow_eff)
+
+    def stmt(self, s, scope):
+        if isinstance(s, ast.Expr) and isinstance(s.value, ast.Call):
+            c = s.value
+            name = ast.unparse(c.func)
+            if name == "self._storage.update":
+                got = self.kwargs(c, ["x", "y"], s)
+                if [ast.unparse(got.get(k)) if got.get(k) is not None else None for k in ("x", "y")] != ["x_i", "y_i"]:
+                    self.err(s, "the storage is updated with something other than the explained observation")
+                return ["st := { st with storage := st.storage.update x_i y_i }"]
+            if name.endswith("explain_many"):
+                v, t, _ = self.expr(c)
+                return [f"st := {{ st with values := {v} }}"]
+        if isinstance(s, ast.AugAssign) and ast.unparse(s.target) == "self.seen_samples" and isinstance(s.op, ast.Add):
+            v, t, _ = self.expr(s.value)
+            return [f"st := {{ st with seen := (st.seen + {self.asNat(v, t, s)}) }}"]
+        if isinstance(s, ast.Assign) and len(s.targets) == 1 and ast.unparse(s.targets[0]) == "self.seen_samples":
+            v, t, _ = self.expr(s.value)
+            return [f"st := {{ st with seen := {self.asNat(v, t, s)} }}"]
+        if isinstance(s, ast.Return) and s.value is not None:
+            v, t, _ = self.expr(s.value)
+            if norm(t) != "DictK":
+                self.err(s, "explain_one returns something other than the importance values")
+            return [f"return ({v}, st)"]
+        return super().stmt(s, scope)
+
+    def with_world(self, build):
+        return build()
+
+
+def translate_interval(repo):
+    text = open(os.path.join(repo, INTERVAL_FILE)).read()
+    tree = ast.parse(text, filename=INTERVAL_FILE)
+    cls = [n for n in tree.body if isinstance(n, ast.ClassDef) and n.name == "IntervalSage"]
+    fns = [n for n in (cls[0].body if cls else []) if isinstance(n, ast.FunctionDef) and n.name == "explain_one"]
+    if len(fns) != 1:
+        raise Unsupported(f"{INTERVAL_FILE}: IntervalSage.explain_one not found")
+    fn = fns[0]
+    args = [a.arg for a in fn.args.args[1:]] + [a.arg for a in fn.args.kwonlyargs]
+    if args != list(INTERVAL_PARAMS):
+        raise Unsupported(f"{INTERVAL_FILE}:{fn.lineno}: signature of explain_one is {args}")
+
+    class S_:
+        pass
+    src = S_()
+    src.find_method = lambda c, m: (None, None, None)
+    src.find_property = lambda c, m: None
+    f = IntervalFn(src, "IntervalSage", fn, INTERVAL_FILE)
+    f.deferred_types = []
+    for a in args:
+        f.env[a] = Var(a, INTERVAL_PARAMS[a])
+    body = f.block(fn.body, f.new_scope())
+    btxt = "\n".join("  " + x for x in body)
+    for ph, ty in f.deferred_types:
+        btxt = btxt.replace(ph, lean_ty(ty))
+    sha = hashlib.sha256(text.encode()).hexdigest()[:16]
+    head = (f"/-\n  GENERATED by tools/py2lean_eff.py from {INTERVAL_FILE} — do not edit.\n  sha256: {sha}\n"
+            "  `IntervalSage.explain_one` statement by statement; the explainer's own state is the explicit record `IntervalState`.\n-/\n"
+            "import IxaiVerif.Gen.BatchSage\n\nnamespace Ixai.Gen\nopen Ixai\n\n"
+            "variable {K : Type} [Add K] [Sub K] [Mul K] [Div K] [NatCast K] [OfNat K 0] [OfNat K 1] [RealOps K] [DecidableEq K]\n"
+            "variable {V Y : Type}\n\n"
+            "def IntervalSage.explain_one (O : Oracles K V Y) (feature_names : List Nat) (cfg_n_inner_samples : Nat) (interval_length : Nat)\n"
+            "    (permutation : Nat → Nat → List Nat) (imputeMx : Inst V → List Nat → Nat → M K (List (Dict K))) (st : IntervalState K V Y)\n"
+            "    (x_i : Inst V) (y_i : Y) (n_inner_samples : Option Nat) (update_storage force_explain verbose : Bool) :\n"
+            "    M K (Dict K × IntervalState K V Y) := do\n  let mut st := st\n")
+    return head + btxt + "\n\nend Ixai.Gen\n", [INTERVAL_FILE], sha
+
+
 class Source:
     def __init__(self, repo, files=None):
         self.repo = repo
@@ -2089,6 +2207,16 @@ def generate(repo=None, outdir=None):
         report["BatchSage"] = {"sources": rels, "sha256": sha, "changed": old != text}
     except (Unsupported, SyntaxError, OSError) as ex:
         report["BatchSage"] = {"sources": [BATCH_FILES["BatchSage"]], "sha256": "", "changed": False, "error": str(ex)}
+    try:
+        text, rels, sha = translate_interval(repo)
+        path = os.path.join(outdir, "IntervalSage.lean")
+        old = open(path).read() if os.path.exists(path) else None
+        if old != text:
+            with open(path, "w") as fh:
+                fh.write(text)
+        report["IntervalSage"] = {"sources": rels, "sha256": sha, "changed": old != text}
+    except (Unsupported, SyntaxError, OSError, IndexError, KeyError) as ex:
+        report["IntervalSage"] = {"sources": [INTERVAL_FILE], "sha256": "", "changed": False, "error": str(ex)}
     try:
         text, rels, sha = translate_mean_output(repo)
         path = os.path.join(outdir, "MeanModelOutput.lean")
